@@ -43,3 +43,7 @@ check("C31", "exploration", "sequential last-writer register model + porcupine l
       "Every ReadAssertions result is compared verbatim (proto.Equal + wire bytes) with the last list written for that (store, model) over 3x3 pairs on memory and sqlite, including rejected writes changing nothing; 47 (quick) / 444 (thorough) concurrent histories are checked with porcupine against a register model.",
       "Client-boundary observation; failed concurrent writes modelled as pending; porcupine Unknown = inconclusive.",
       "DESIGN.md §5 C31")
+check("C22", "exploration", "schedule-steered random and directed concurrent histories over the real queues; porcupine linearizability + conservation + goroutine-dump stuck-state oracle; -race",
+      "For ~5.4k (quick) / ~131k (thorough) short programs per seed over mpmc.Queue and mpsc.Accumulator (1-4 producers, 1-3 consumers, capacities 2-8, growth, Close, cancellation, scripted holds at all 10 hook yield points): no history may be non-linearizable against a FIFO-with-close model (per-producer FIFO for mpsc), no item lost or duplicated after close+drain, and no goroutine may stay parked with an item, slot, close or cancel pending (logical stuck-state criterion from goroutine dumps, not wall-clock). Schedules are sampled, not enumerated.",
+      "Trusts porcupine, runtime.Stack status reporting and the verifhook yield points; mpsc judged only under its documented Close precondition; Size/Capacity values not judged; watchdog expiry = inconclusive.",
+      "DESIGN.md §5 C22")
